@@ -6,7 +6,7 @@ import json, os, shutil, subprocess, sys
 src, sid, prop, *checks = sys.argv[1:]
 patch = os.path.join(src, "patch.diff")
 demo = next((os.path.join(src, f) for f in os.listdir(src) if f.startswith("demo") and f.endswith(".py")), None)
-W = "/tmp/seedchk"
+W = os.environ.get("SEED_W", "/tmp/seedchk")
 def sh(cmd, cwd=None, env=None, timeout=900):
     r = subprocess.run(cmd, shell=True, cwd=cwd, capture_output=True, text=True, timeout=timeout,
                        env={**os.environ, **(env or {})})
